@@ -278,12 +278,20 @@ impl CatLens {
         match op.as_str() {
             "disconnect" => {
                 let c = step["c"].as_u64().unwrap_or(1) as usize;
-                if let Some((cl, _)) = run.members[c].take() {
+                if let Some((cl, old_id)) = run.members[c].take() {
                     let inc = run.inc.as_ref().unwrap();
                     let _ = inc.rt.block_on(Client::disconnect(&cl));
                     drop(cl);
-                    // let the server's connection task observe the closed socket
-                    inc.rt.block_on(async { tokio::time::sleep(std::time::Duration::from_millis(10)).await });
+                    // wait until the server's connection task has observed the closed socket and removed the client (not a
+                    // fixed pause: on a loaded machine that can take long; only a client that never goes away is a finding)
+                    if let Some(a) = run.admin.as_ref() {
+                        for _ in 0..4000 {
+                            inc.rt.block_on(async { tokio::time::sleep(std::time::Duration::from_millis(2)).await });
+                            if matches!(inc.rt.block_on(a.get_client(old_id)), Ok(None)) {
+                                break;
+                            }
+                        }
+                    }
                     let ncl = inc.rt.block_on(srv::tcp_root(inc.tcp))?;
                     let me = inc
                         .rt
